@@ -9,6 +9,7 @@ namespace Eru.Cluster2.ND
 structure NodeRec where
   name : String
   test : Bool := false     -- `Test` nodes are forced alive by initNodeStatus
+  bypass : Bool := false   -- taken out of service by the operator (SetNode{Bypass}); NOT forced alive
   deriving DecidableEq, Repr
 
 structure WlRec where
@@ -63,9 +64,11 @@ inductive Evt where
   | heartbeat (n : String)       -- agent: SetNodeStatus(ttl > 0)
   | lapse (n : String)           -- expiry or deletion of the status key
   | create (id : Nat) (n : String)
-  | report (id : Nat)            -- agent reports the workload running and healthy
-  | startWatcher
-  | stopWatcher
+  | report (id : Nat) (st : WStatus)  -- the agent reports a status (any of the four running/healthy combinations)
+  | startWatcher                 -- an ACTIVATION: the watcher obtains /selfmon/active (first start or failover) → scan + watch
+  | stopWatcher                  -- the watcher loses / gives up the active key
+  | standby                      -- a watcher process starts while another instance holds the key: nothing happens
+  | bypass (n : String)          -- operator: SetNode{Bypass: true}
   deriving DecidableEq, Repr
 
 def step (s : St) : Evt → St
@@ -75,9 +78,11 @@ def step (s : St) : Evt → St
     -- the watch delivers a DELETE only if the key existed and only to an active watcher
     if s.active && s.hb.contains n then dealMsg n false s' else s'
   | .create id n => { s with wls := ⟨id, n, true⟩ :: s.wls }
-  | .report id => setStatus id up s
+  | .report id st => setStatus id st s
   | .startWatcher => initNodeStatus { s with active := true }
   | .stopWatcher => { s with active := false }
+  | .standby => s
+  | .bypass n => { s with nodes := s.nodes.map fun nd => if nd.name == n then { nd with bypass := true } else nd }
 
 def run (s : St) (evs : List Evt) : St := evs.foldl step s
 
@@ -86,7 +91,9 @@ that must be reported down at the end — the workloads recorded on an existing 
 its heartbeat disappeared under an active watcher, or found lapsed (non-test node) when the
 watcher started, and not reported up again by their agent since.  NOT included (and not marked by
 the code): workloads created on the node after its lapse was handled, lapses of `Test` nodes found
-by `initNodeStatus`, lapses while no watcher is active (until one starts). -/
+by `initNodeStatus`, lapses while no watcher is active (until the next ACTIVATION: `startWatcher`
+stands for every activation — first start or failover after a standby period — and each one scans
+all nodes). Bypassed nodes are NOT exempt. -/
 def obligations : List Evt → St → List Nat → List Nat
   | [], _, ob => ob
   | e :: rest, s, ob =>
@@ -94,7 +101,7 @@ def obligations : List Evt → St → List Nat → List Nat
       | .lapse n => if s.active && s.hb.contains n && nodeExists s n then ob ++ ((onNode s n).map (·.id)) else ob
       | .startWatcher =>
         ob ++ (s.nodes.filter fun nd => !nd.test && !s.hb.contains nd.name).flatMap fun nd => (onNode s nd.name).map (·.id)
-      | .report i => ob.filter (fun j => j != i)
+      | .report i _ => ob.filter (fun j => j != i)
       | _ => ob
     obligations rest (step s e) ob'
 
